@@ -21,6 +21,28 @@ def _nontrivial(cases_path):
     return len(seen)
 
 
+OPS = {f"{t}.{k}" for t in ("PlainDate", "PlainTime", "PlainDateTime") for k in ("with", "from_partial", "new_with_overflow")} | \
+      {"PlainYearMonth.with", "PlainYearMonth.from_partial", "ZonedDateTime.from_partial"}
+PROBLEMS = {"ok", "empty", "missing", "badcode", "month!=code", "month=0", "month>12", "year-limits", "day=0", "day>dim", "recvday>dim",
+            "hour>23", "minute>59", "second>59", "ms>999", "us>999", "ns>999", "limits"}
+
+
+def _vacuity(paths):
+    """non-vacuity of the generated instance: every operation and every problem class the laws talk about occurs,
+    under both overflow modes, with the month given by month / monthCode / both / neither"""
+    ops, probs, ovfs, srcs = set(), set(), set(), set()
+    for p in paths:
+        with open(p) as f:
+            for l in f:
+                c = json.loads(l)
+                ops.add(c["op"])
+                src, pr, ov = c["cls"].split("/")
+                probs.add(pr); ovfs.add(ov); srcs.add(src)
+    missing = (OPS - ops) | (PROBLEMS - probs) | ({"constrain", "reject"} - ovfs) | ({"m", "c", "mc", "-", "*"} - srcs)
+    if missing:
+        raise ToolError(f"vacuous C17 instance: never generated {sorted(missing)}")
+
+
 def corrupt_case(lines):
     for e in lines:
         if e["out"].get("kind") == "ok" and isinstance(e["out"].get("val"), dict) and "m" in e["out"]["val"] and e["op"].endswith(".with"):
@@ -44,12 +66,15 @@ def run(run):
     q = run.tier == "quick"
     nontrivial = 0
     first = None
+    files = []
     for c in (QUICK if q else THOROUGH):
         # the generator run is the model-checking run of the instance: all laws of PartialMachine as invariants, plus Emit
         cases, n = run.gen("mc/MC_Partial.tla", f"gen/Gen_C17_{c}.cfg", workers=4, name=c, timeout=1500)
         run.replay(b, cases, label=c)
         nontrivial += _nontrivial(cases)
         first = first or cases
+        files.append(cases)
+    _vacuity(files)
     run.negative_control_replay(b, first, corrupt_case, limit=4000)
     if not q:
         # wrapping (release) arithmetic: the limit cases again
